@@ -28,7 +28,7 @@ One(n) == << En(NoName, n) >>        \* a single-valued ordered slot
 Named(n) == En(n.nm[1], n)           \* dictionary entry keyed by the child's name
 
 OwnNames == {Nm("n1", 0), Nm("n1", 1), Nm("n2", 0), Nm("n2", 1)}
-OwnFew == {Nm("n1", 0), Nm("n1", 1)}
+OwnFew == IF Big THEN OwnNames ELSE {Nm("n1", 0), Nm("n1", 1)}
 OptNames == {NoName, Nm("n1", 0), Nm("n1", 1), Nm("n2", 0)}
 
 (* all tuples that differ from `base` in at most one position *)
@@ -77,7 +77,7 @@ q2 == Qual(Nm("n2", 0), QAt1, Sc("str:v2", ""))
 QualCfgs == { [i \in 1..Len(s) |-> Named(s[i])] : s \in BagCfgs(q1, q1v, q1m, q2) }
 
 (* ---- QualifierDeclaration ---- *)
-DAt1 == <<"s:string", "none", "none", "none", "none", "none", "none">>
+DAt1 == <<"s:string", "False", "none", "none", "none", "none", "none">>
 DAt2 == <<"s:string", "False", "i:5", "True", "False", "True", "False">>
 DDoms == <<Types, Flag, ASize, Flag, Flag, Flag, Flag>>
 TrueS == Sc("bool:True", "1")
@@ -122,8 +122,10 @@ UInstanceName ==
            c \in {0, 1}, r \in {ipath1, ipath1v, ipath1m, ipath2} }
 
 (* ---- Property / Parameter ---- *)
-PAt1 == <<"s:uint8", "none", "none", "none", "none">>
-PAt2 == <<"s:uint8", "s:instance", "False", "i:5", "True">>
+PAt1 == <<"s:uint8", "none", "False", "none", "none">>
+PAt2 == <<"s:string", "s:instance", "False", "i:5", "True">>
+PAtE == <<"s:string", "s:instance", "False", "none", "none">>
+PAtR == <<"s:reference", "none", "False", "none", "none">>
 PDoms == <<Types, Emb, Flag, ASize, Flag>>
 Prop(name, rc, co, at, v, qs) == Mk("Property", <<name, rc, co>>, at, <<One(v), qs>>)
 PropNames ==
@@ -134,23 +136,26 @@ emb1 == Mk("Instance", <<Nm("n1", 0)>>, <<>>, << <<>>, <<>>, <<>> >>)
 emb1v == Mk("Instance", <<Nm("n1", 1)>>, <<>>, << <<>>, <<>>, <<>> >>)
 emb2 == Mk("Instance", <<Nm("n2", 0)>>, <<>>, << <<>>, <<>>, <<>> >>)
 embc == Mk("Class", <<Nm("n1", 0), NoName>>, <<>>, << <<>>, <<>>, <<>>, <<>> >>)
-ObjVals == {emb1, emb1v, emb2, embc, Li(<<emb1, emb2>>), Li(<<emb2, emb1v>>),
-            ipath1, ipath1v, ipath1m, Sc("str:v1", "")}
+EmbVals == {None, emb1, emb1v, emb2, embc, Li(<<emb1, emb2>>), Li(<<emb2, emb1v>>),
+            Sc("str:v1", "")}
+RefVals == {None, ipath1, ipath1v, ipath1m, ipath2,
+            CName(Nm("n1", 0), NoName, Nm("n1", 0))}
 UProperty ==
   { Prop(t[1], t[2], t[3], at, None, <<>>) : t \in PropNames, at \in {PAt1, PAt2} }
   \cup { Prop(n, NoName, NoName, at, None, <<>>) :
            n \in OwnFew, at \in DevsOf({PAt1, PAt2}, PDoms) }
   \cup { Prop(n, NoName, NoName, PAt1, v, <<>>) : n \in OwnFew, v \in NumVals }
-  \cup { Prop(Nm("n1", 0), NoName, NoName, PAt1, v, <<>>) : v \in ObjVals }
-  \cup { Prop(n, NoName, NoName, PAt2, U8a, qs) : n \in OwnFew, qs \in QualCfgs }
+  \cup { Prop(Nm("n1", 0), NoName, NoName, PAtE, v, <<>>) : v \in EmbVals }
+  \cup { Prop(Nm("n1", 0), Nm("n1", 0), NoName, PAtR, v, <<>>) : v \in RefVals }
+  \cup { Prop(n, NoName, NoName, PAt1, U8a, qs) : n \in OwnFew, qs \in QualCfgs }
 p1 == Prop(Nm("n1", 0), NoName, NoName, PAt1, U8a, <<>>)
 p1v == Prop(Nm("n1", 1), NoName, NoName, PAt1, U8a, <<>>)
 p1m == Prop(Nm("n1", 0), NoName, NoName, PAt1, U8b, <<>>)
 p2 == Prop(Nm("n2", 0), NoName, Nm("n1", 0), PAt2, None, <<Named(q1)>>)
 PropCfgs == { [i \in 1..Len(s) |-> Named(s[i])] : s \in BagCfgs(p1, p1v, p1m, p2) }
 
-RAt1 == <<"s:uint8", "none", "none", "none">>
-RAt2 == <<"s:uint8", "s:object", "True", "i:7">>
+RAt1 == <<"s:uint8", "none", "False", "none">>
+RAt2 == <<"s:string", "s:object", "True", "i:7">>
 RDoms == <<Types, Emb, Flag, ASize>>
 Parm(name, rc, at, v, qs) == Mk("Parameter", <<name, rc>>, at, <<One(v), qs>>)
 UParameter ==
